@@ -2,6 +2,7 @@ package historyprunner
 
 import (
 	"encoding/binary"
+	"errors"
 	"fmt"
 
 	"github.com/NethermindEth/juno/core"
@@ -108,6 +109,12 @@ func copyValue(
 		return nil
 	})
 	if err != nil {
+		// The deprecated state logs a history entry only when the write replaced
+		// an existing value: a diff entry that writes the zero value to a key
+		// that was never written has none. There is nothing to carry over then.
+		if errors.Is(err, db.ErrKeyNotFound) {
+			return nil
+		}
 		return err
 	}
 
